@@ -2,9 +2,13 @@
 
 Sub-checks (every one runs the real quara code and the extracted Coq model on the same inputs and, in addition,
 evaluates the property's own predicates on the implementation's outputs with independent numpy code):
+  (regen)     the eight convert_*_index_to_*_index functions are regenerated from the current source by gen/py2coq.py and
+              coq/gen/C03_Equiv.v re-proves them equal to the model + the transported bijection / points-at-entry theorems
   index_maps  the eight convert_*_index_to_*_index functions, every index of every configuration
-  objects     random NON-physical objects of the four types: to_var, generate_from_var, the static stacked<->var
-              conversions, calc_gradient, malformed variable vectors (error branches)
+  index_wide  the same functions far outside the object-level sweep (d up to 16, m up to 12), called with stand-in arguments
+  objects     random NON-physical objects of the four types: to_var, generate_from_var (own and overridden flag), the
+              module-level convert_* functions, the static stacked<->var conversions, calc_gradient, malformed variable
+              vectors (error branches)
   setq        SetQOperations with random mixes: total<->local index maps, var_total layout, set_qoperations_from_var_total
   tomography  num_variables of StandardQst / StandardPovmt / StandardQpt / StandardQmpt
 """
@@ -51,8 +55,8 @@ def total_size(ty, d, m):
     return [n, n * n, m * n, m * n * n][ty]
 
 
-def mk_obj(ty, d, m, flag, stacked):
-    """the quara object whose stacked vector is `stacked` (non-physical allowed)"""
+def mk_obj(ty, d, m, flag, stacked, shape=None):
+    """the quara object whose stacked vector is `stacked` (non-physical allowed); `shape` = multi-index outcome shape of an MProcess"""
     from quara.objects.state import State
     from quara.objects.gate import Gate
     from quara.objects.povm import Povm
@@ -66,7 +70,7 @@ def mk_obj(ty, d, m, flag, stacked):
         return Gate(c, a.reshape(n, n).copy(), **kw)
     if ty == 2:
         return Povm(c, [a[k * n:(k + 1) * n].copy() for k in range(m)], **kw)
-    return MProcess(c, [a[k * n * n:(k + 1) * n * n].reshape(n, n).copy() for k in range(m)], **kw)
+    return MProcess(c, [a[k * n * n:(k + 1) * n * n].reshape(n, n).copy() for k in range(m)], shape=(tuple(shape) if shape else None), **kw)
 
 
 def entry(obj, ty, idx):
@@ -141,6 +145,10 @@ def flat_of(ty, d, idx):
 
 # ------------------------------------------------------------------ index maps (exhaustive per configuration)
 def chk_index(ctx, case):
+    """every variable index and every object entry of one configuration.  Two independent layers:
+    (P) the property's predicates on the implementation's outputs alone (free entry / inverse / bijective / points at the
+        entry holding the value), stated with independent Python code on an object whose entries are labelled by position;
+    (M) agreement with the extracted Coq model (the functions the theorems are about)."""
     m_ = ctx.get_model()
     ty, d, m, flag = case["ty"], case["d"], case["m"], bool(case["flag"])
     site = NAMES[ty] + ".convert_index"
@@ -150,57 +158,58 @@ def chk_index(ctx, case):
     var = labelled.to_var()
     tab = [int(v) for v in m_.call("c03.idx_table", [ty, d, m, int(flag)])]
     nv = tab[0]; w = arity + 2
-    free = [e for e in all_entries(ty, d, m) if not is_implied(ty, d, m, flag, e)]
+    ents = all_entries(ty, d, m)
+    free = [e for e in ents if not is_implied(ty, d, m, flag, e)]
+    free_s = set(free); ent_s = set(ents)
     rep = dict(case)
+    hdr = "%s d=%d m=%d flag=%s: " % (NAMES[ty], d, m, flag)
     if nv != len(free) or nv != len(var) or len(tab) != 1 + nv * w:
-        ctx.violation("index_maps", site, "num-variables", "model num_variables %d, free entries %d, len(to_var) %d" % (nv, len(free), len(var)), rep)
+        ctx.violation("index_maps", site, "num-variables", hdr + "model num_variables %d, free entries %d, len(to_var) %d" % (nv, len(free), len(var)), rep)
         return
-    seen = set()
+    fwd = []
     for i in range(nv):
         row = tab[1 + i * w: 1 + (i + 1) * w]
         mod_idx, mod_flat, mod_back = tuple(row[:arity]), row[arity], row[arity + 1]
         idx = tuple(int(v) for v in impl_fwd(ty, d, labelled, flag, i))
         back = int(impl_bwd(ty, d, labelled, flag, idx))
+        fwd.append(idx)
         ctx.count("index_maps", key=(ty, d, m, flag, i), nontrivial=True, label=NAMES[ty] + ("-eq" if flag else "-free"))
-        if idx != mod_idx or back != mod_back:
-            ctx.violation("index_maps", site, "model-mismatch", "%s d=%d m=%d flag=%s var %d: impl %s back %s, model %s back %s" % (NAMES[ty], d, m, flag, i, idx, back, mod_idx, mod_back), dict(rep, i=i))
-            continue
-        seen.add(idx)
+        # (P) property predicates, implementation only
         bad = None
-        if idx not in free_set(ty, d, m, flag):
+        if idx not in free_s:
             bad = ("not-a-free-entry", "variable %d is mapped to %s which is not a free entry" % (i, idx))
         elif back != i:
             bad = ("not-inverse", "variable %d -> %s -> %d" % (i, idx, back))
-        elif float(entry(labelled, ty, idx)) != float(var[i]) or flat_of(ty, d, idx) != mod_flat or float(mod_flat) != float(var[i]):
-            bad = ("points-at-wrong-entry", "variable %d holds %s, entry %s holds %s (flat %s, model flat %s)" % (i, var[i], idx, entry(labelled, ty, idx), flat_of(ty, d, idx), mod_flat))
+        elif float(entry(labelled, ty, idx)) != float(var[i]) or float(flat_of(ty, d, idx)) != float(var[i]):
+            bad = ("points-at-wrong-entry", "variable %d holds %s, entry %s holds %s (flat position %s)" % (i, var[i], idx, entry(labelled, ty, idx), flat_of(ty, d, idx)))
         if bad:
-            ctx.violation("index_maps", site, bad[0], "%s d=%d m=%d flag=%s: %s" % (NAMES[ty], d, m, flag, bad[1]), dict(rep, i=i))
-    if seen != set(free):
-        ctx.violation("index_maps", site, "not-bijective", "%s d=%d m=%d flag=%s: image of the variable indices is not the set of free entries (%d of %d)" % (NAMES[ty], d, m, flag, len(seen & set(free)), len(free)), rep)
+            ctx.violation("index_maps", site, bad[0], hdr + bad[1], dict(rep, i=i))
+        # (M) the model
+        if idx != mod_idx or back != mod_back or (idx in ent_s and flat_of(ty, d, idx) != mod_flat):
+            ctx.violation("index_maps", site, "model-mismatch", hdr + "var %d: impl %s back %s, model %s back %s (flat %s)" % (i, idx, back, mod_idx, mod_back, mod_flat), dict(rep, i=i))
+    if set(fwd) != free_s or len(set(fwd)) != nv:
+        ctx.violation("index_maps", site, "not-bijective", hdr + "image of the variable indices is not the set of free entries (%d distinct, %d of the %d free entries hit)" % (len(set(fwd)), len(set(fwd) & free_s), len(free)), rep)
     # the object-index -> variable-index direction on EVERY entry (implied ones included: value as coded)
     inv = [int(v) for v in m_.call("c03.inv_table", [ty, d, m, int(flag)])]
-    ents = all_entries(ty, d, m)
     if len(inv) != len(ents):
-        ctx.violation("index_maps", site, "model-mismatch", "inverse table size", rep); return
+        ctx.violation("index_maps", site, "model-mismatch", hdr + "inverse table size", rep); return
+    hit = {}
     for e, mv in zip(ents, inv):
         v = int(impl_bwd(ty, d, labelled, flag, e))
         imp = is_implied(ty, d, m, flag, e)
         ctx.count("index_maps", key=(ty, d, m, flag, "inv", e), nontrivial=not imp, label=NAMES[ty] + "-inv" + ("-implied" if imp else ""))
+        if not imp:
+            if not (0 <= v < nv and fwd[v] == e):
+                ctx.violation("index_maps", site, "not-inverse", hdr + "entry %s -> var %s -> %s" % (e, v, fwd[v] if 0 <= v < nv else "out of range"), dict(rep, entry=list(e)))
+            elif v in hit:
+                ctx.violation("index_maps", site, "not-bijective", hdr + "entries %s and %s both map to variable %d" % (hit[v], e, v), dict(rep, entry=list(e)))
+            elif float(var[v]) != float(entry(labelled, ty, e)):
+                ctx.violation("index_maps", site, "points-at-wrong-entry", hdr + "entry %s holds %s but its variable %d holds %s" % (e, entry(labelled, ty, e), v, var[v]), dict(rep, entry=list(e)))
+            hit[v] = e
         if v != mv:
-            ctx.violation("index_maps", site, "model-mismatch", "%s d=%d m=%d flag=%s entry %s: impl var index %s model %s" % (NAMES[ty], d, m, flag, e, v, mv), dict(rep, entry=list(e)))
-        elif not imp and not (0 <= v < nv and tuple(int(x) for x in impl_fwd(ty, d, labelled, flag, v)) == e):
-            ctx.violation("index_maps", site, "not-inverse", "%s d=%d m=%d flag=%s entry %s -> var %s -> %s" % (NAMES[ty], d, m, flag, e, v, impl_fwd(ty, d, labelled, flag, v) if 0 <= v < nv else "out of range"), dict(rep, entry=list(e)))
-
-
-_FREE = {}
-
-
-def free_set(ty, d, m, flag):
-    k = (ty, d, m, flag)
-    if k not in _FREE:
-        _FREE.clear()
-        _FREE[k] = set(e for e in all_entries(ty, d, m) if not is_implied(ty, d, m, flag, e))
-    return _FREE[k]
+            ctx.violation("index_maps", site, "model-mismatch", hdr + "entry %s: impl var index %s model %s" % (e, v, mv), dict(rep, entry=list(e)))
+    if len(hit) != nv:
+        ctx.violation("index_maps", site, "not-bijective", hdr + "the free entries reach %d of the %d variable indices" % (len(hit), nv), rep)
 
 
 def sub_index_maps(ctx):
@@ -213,14 +222,109 @@ def sub_index_maps(ctx):
             for m in (2, 3, 4, 5):
                 for ty in (2, 3):
                     cases.append({"ty": ty, "d": d, "m": m, "flag": flag})
-    if not ctx.quick:
+    if not ctx.quick or tie_broken(ctx):
+        # thorough tier, or: the translator tie of the index functions did not re-prove on this tree -> widen the search for a failing input
         for flag in (1, 0):
             cases += [{"ty": 0, "d": 9, "m": 0, "flag": flag}, {"ty": 1, "d": 8, "m": 0, "flag": flag}, {"ty": 2, "d": 9, "m": 3, "flag": flag},
                       {"ty": 2, "d": 8, "m": 7, "flag": flag}, {"ty": 3, "d": 2, "m": 9, "flag": flag}, {"ty": 3, "d": 3, "m": 1, "flag": flag},
                       {"ty": 2, "d": 3, "m": 1, "flag": 0}]
+            cases += [{"ty": ty, "d": d, "m": m, "flag": flag} for d in (2, 3) for m in (6, 7, 8) for ty in (2, 3)]
     ctx.sample("index_maps", cases[5])
     ctx.run_cases("index_maps", chk_index, cases)
     ctx.note("index maps: every variable index and every object entry of all four types, d in %s, m in 2..5, both flags (%d configurations)" % (dims, len(cases)))
+
+
+def tie_broken(ctx):
+    """flow.standard_run leaves this note when the regenerated index functions no longer re-prove equal to the model"""
+    return any("regenerated-model obligations" in n for n in ctx.notes)
+
+
+# ------------------------------------------------------------------ index maps far outside the object-level sweep
+class _Sys:
+    """the index functions read nothing of a composite system but .dim"""
+    def __init__(self, d):
+        self.dim = d
+
+
+def wide_fns(ty, d, m, flag):
+    """(var index -> object index, object index -> var index) as /repo computes them, for ANY (d, m): the eight functions are pure
+    integer code that reads only c_sys.dim, len(hss) and vecs[0].shape[0], so stand-ins replace the quara objects"""
+    from quara.objects import state, gate, povm, mprocess
+    c = _Sys(d)
+    if ty == 0:
+        return (lambda i: (state.convert_var_index_to_state_index(i, flag),)), (lambda e: state.convert_state_index_to_var_index(e[0], flag))
+    if ty == 1:
+        return (lambda i: tuple(gate.convert_var_index_to_gate_index(c, i, flag))), (lambda e: gate.convert_gate_index_to_var_index(c, tuple(e), flag))
+    if ty == 2:
+        vecs = [np.zeros(d * d)] * m
+        return (lambda i: tuple(povm.convert_var_index_to_povm_index(c, vecs, i, flag))), (lambda e: povm.convert_povm_index_to_var_index(c, vecs, tuple(e), flag))
+    hss = [None] * m
+    return (lambda i: tuple(mprocess.convert_var_index_to_mprocess_index(c, hss, i, flag))), (lambda e: mprocess.convert_mprocess_index_to_var_index(c, tuple(e), hss, flag))
+
+
+def ref_position(ty, d, m, flag, i):
+    """independent statement: row-major position of the i-th free entry = i + number of implied entries before it"""
+    n = d * d
+    if not flag or ty == 2:
+        return i                                    # Povm: the implied element is the last one
+    if ty == 0:
+        return i + 1
+    if ty == 1:
+        return i + n
+    return i + (n if i >= (m - 1) * n * n else 0)   # MProcess: first row of the last HS
+
+
+def chk_index_wide(ctx, case):
+    mdl = ctx.get_model()
+    ty, d, m, flag = case["ty"], case["d"], case["m"], bool(case["flag"])
+    site = NAMES[ty] + ".convert_index"
+    n = d * d
+    nv = int(mdl.call("c03.numvar", [ty, d, m, int(flag)])[0])
+    nfree = total_size(ty, d, m) - ([1, n, n, n][ty] if flag else 0)
+    hdr = "%s d=%d m=%d flag=%s: " % (NAMES[ty], d, m, flag)
+    if nv != nfree:
+        ctx.violation("index_wide", site, "num-variables", hdr + "model num_variables %d, free entries %d" % (nv, nfree), dict(case)); return
+    try:
+        fwd, bwd = wide_fns(ty, d, m, flag)
+        fwd(0)
+    except (AttributeError, TypeError) as e:       # the functions started to read more of their arguments: the stand-ins do not apply
+        ctx.note("index_wide skipped for %s: the stand-in arguments are not accepted (%s)" % (NAMES[ty], type(e).__name__)); return
+    hs = n * n
+    marks = [0, 1, n - 1, n, n + 1, hs - n - 1, hs - n, hs - 1, hs, hs + n, (m - 1) * n - 1, (m - 1) * n, (m - 1) * hs - 1, (m - 1) * hs, (m - 1) * hs + 1,
+             (m - 1) * hs + n - 1, (m - 1) * hs + n, nv - n - 1, nv - n, nv - 2, nv - 1]
+    rng = random.Random(case["seed"])
+    idxs = sorted(set([i for i in marks if 0 <= i < nv] + [rng.randrange(nv) for _ in range(case["k"])]))
+    for i in idxs:
+        idx = tuple(int(v) for v in fwd(i))
+        back = int(bwd(idx))
+        mod = tuple(int(v) for v in mdl.call("c03.idx", [ty, d, m, int(flag), i]))
+        ctx.count("index_wide", key=(ty, d, m, flag, i), nontrivial=True, label=NAMES[ty] + ("-eq" if flag else "-free"))
+        inside = len(idx) == len(all_entries(ty, 1, 1)[0]) and all(0 <= a < b for a, b in zip(idx, [[n], [n, n], [m, n], [m, n, n]][ty]))
+        if not inside or is_implied(ty, d, m, flag, idx):
+            ctx.violation("index_wide", site, "not-a-free-entry", hdr + "variable %d is mapped to %s which is not a free entry" % (i, idx), dict(case, i=i))
+        elif back != i:
+            ctx.violation("index_wide", site, "not-inverse", hdr + "variable %d -> %s -> %d" % (i, idx, back), dict(case, i=i))
+        elif flat_of(ty, d, idx) != ref_position(ty, d, m, flag, i):
+            ctx.violation("index_wide", site, "points-at-wrong-entry", hdr + "variable %d is mapped to %s = flat position %d; the %d-th free entry sits at %d" % (i, idx, flat_of(ty, d, idx), i, ref_position(ty, d, m, flag, i)), dict(case, i=i))
+        if idx != mod:
+            ctx.violation("index_wide", site, "model-mismatch", hdr + "var %d: impl %s, model %s" % (i, idx, mod), dict(case, i=i))
+
+
+def sub_index_wide(ctx):
+    rng = ctx.rng
+    wide = (not ctx.quick) or tie_broken(ctx)
+    cases = []
+    for k in range(ctx.n(64, 640) if not tie_broken(ctx) else 640):
+        ty = k % 4
+        d = rng.choice([2, 3, 4, 5, 6, 7, 8, 9, 10, 12, 16] if wide else [2, 3, 5, 7, 8, 10, 12])
+        m = rng.randint(1, 12) if ty >= 2 else 0
+        flag = (k // 4) % 2
+        if ty == 2 and flag and m == 1:
+            m = 6
+        cases.append({"ty": ty, "d": d, "m": m, "flag": flag, "seed": rng.randrange(10 ** 9), "k": 24})
+    ctx.sample("index_wide", cases[3])
+    ctx.run_cases("index_wide", chk_index_wide, cases)
+    ctx.note("index_wide: %d configurations with d up to %d and m in 1..12 (beyond the stated 2..5), boundary + random variable indices, /repo's index functions called with stand-in arguments" % (len(cases), 16 if wide else 12))
 
 
 # ------------------------------------------------------------------ objects
@@ -263,6 +367,23 @@ def fr(vals):
     return [float(v) for v in vals]
 
 
+def direct_fns(ty):
+    from quara.objects import state, gate, povm, mprocess
+    return [(state.convert_vec_to_var, state.convert_var_to_vec), (gate.convert_hs_to_var, gate.convert_var_to_hs),
+            (povm.convert_vecs_to_var, povm.convert_var_to_vecs), (mprocess.convert_hss_to_var, mprocess.convert_var_to_hss)][ty]
+
+
+def arrays_of(obj, ty):
+    """copies of the arrays the object holds, in the form the module-level functions take"""
+    if ty == 0:
+        return np.array(obj.vec, dtype=np.float64)
+    if ty == 1:
+        return np.array(obj.hs, dtype=np.float64)
+    if ty == 2:
+        return [np.array(v, dtype=np.float64) for v in obj.vecs]
+    return [np.array(h, dtype=np.float64) for h in obj.hss]
+
+
 def close(a, b, tol=TOL):
     a = np.asarray(a, dtype=float).ravel(); b = np.asarray(b, dtype=float).ravel()
     return a.shape == b.shape and (a.size == 0 or float(np.abs(a - b).max()) <= tol * (1 + float(np.abs(b).max())))
@@ -278,9 +399,9 @@ def chk_object(ctx, case):
     stacked = np.array(rand_vals(rng, tot))
     if case.get("eqsat"):
         stacked = ref_reimplied(ty, d, m, flag, stacked)       # an object that satisfies its equality constraint
-    lab = "%s-%s-%s" % (name, "eq" if flag else "free", "sat" if case.get("eqsat") else "generic")
+    lab = "%s-%s-%s%s" % (name, "eq" if flag else "free", "sat" if case.get("eqsat") else "generic", "-multishape" if case.get("shape") else "")
     zs = [ty, d, m, int(flag)]
-    obj = mk_obj(ty, d, m, flag, stacked)
+    obj = mk_obj(ty, d, m, flag, stacked, case.get("shape"))
     nontriv = bool(np.count_nonzero(stacked) > tot // 2)
     ctx.count("objects", key=(ty, d, m, flag, case["seed"]), nontrivial=nontriv, label=lab)
     rep = dict(case)
@@ -307,8 +428,10 @@ def chk_object(ctx, case):
     st2 = np.asarray(obj2.to_stacked_vector(), dtype=float)
     st2_m = fr(mdl.call("c03.from_var", zs, [sd] + fr(var)))
     if not close(st2, st2_m):
-        viol(name + ".generate_from_var", "model-mismatch", "generate_from_var(to_var) differs from the model, max diff %.3g" % flow.maxdiff(list(st2), st2_m)); return
+        viol(name + ".generate_from_var", "model-mismatch", "generate_from_var(to_var) differs from the model, max diff %.3g" % flow.maxdiff(list(st2), st2_m))
     expect = ref_reimplied(ty, d, m, flag, stacked)
+    if len(st2) != tot:
+        viol(name + ".generate_from_var", "shape-changed", "object -> var -> object has %d entries instead of %d" % (len(st2), tot)); return
     if not np.array_equal(st2[mask], stacked[mask]):
         viol(name + ".generate_from_var", "free-entry-changed", "object -> var -> object changed a free entry")
     elif not close(st2, expect):
@@ -319,17 +442,53 @@ def chk_object(ctx, case):
         viol(name + ".generate_from_var", "roundtrip-var", "var -> object -> var is not the identity (on to_var of the object)")
     if bool(obj2.on_para_eq_constraint) != flag:
         viol(name + ".generate_from_var", "flag-lost", "generate_from_var changed on_para_eq_constraint")
+    if ty == 3 and tuple(obj2.shape) != tuple(obj.shape):
+        viol(name + ".generate_from_var", "shape-lost", "generate_from_var changed the outcome shape %s -> %s" % (obj.shape, obj2.shape))
     # --- var -> obj -> var for an unrelated variable vector
     w = np.array(rand_vals(rng, nv))
     obj3 = obj.generate_from_var(w)
     st3 = np.asarray(obj3.to_stacked_vector(), dtype=float)
     st3_m = fr(mdl.call("c03.from_var", zs, [sd] + fr(w)))
     if not close(st3, st3_m):
-        viol(name + ".generate_from_var", "model-mismatch", "generate_from_var(w) differs from the model, max diff %.3g" % flow.maxdiff(list(st3), st3_m)); return
+        viol(name + ".generate_from_var", "model-mismatch", "generate_from_var(w) differs from the model, max diff %.3g" % flow.maxdiff(list(st3), st3_m))
+    if len(st3) != tot:
+        viol(name + ".generate_from_var", "shape-changed", "var -> object has %d entries instead of %d" % (len(st3), tot)); return
     if not np.array_equal(np.asarray(obj3.to_var(), dtype=float), w):
         viol(name + ".generate_from_var", "roundtrip-var", "var -> object -> var is not the identity")
     if not close(st3, ref_reimplied(ty, d, m, flag, st3)) or not np.array_equal(st3[mask], w):
         viol(name + ".generate_from_var", "implied-component", "generated object does not carry w in its free entries / the implied value in the implied ones")
+    # --- the OTHER parametrisation of the same object type, selected with the override argument of generate_from_var
+    oflag = not flag
+    if not (ty == 2 and m == 1 and oflag):
+        zs_o = [ty, d, m, int(oflag)]
+        nv_o = int(mdl.call("c03.numvar", zs_o)[0])
+        wo = np.array(rand_vals(rng, nv_o))
+        st4_m = fr(mdl.call("c03.from_var", zs_o, [sd] + fr(wo)))
+        ctx.count("objects", key=(ty, d, m, flag, case["seed"], "override"), nontrivial=False, label=name + "-flag-override")
+        try:
+            with warnings.catch_warnings():
+                warnings.simplefilter("ignore")
+                obj4 = obj.generate_from_var(wo, on_para_eq_constraint=oflag)
+        except (ValueError, IndexError) as e:
+            obj4 = None
+            viol(name + ".generate_from_var", "flag-override-raises", "generate_from_var(w, on_para_eq_constraint=%s) with the %d variables of that parametrisation raises %s" % (oflag, nv_o, type(e).__name__))
+        if obj4 is not None:
+            st4 = np.asarray(obj4.to_stacked_vector(), dtype=float)
+            if not close(st4, st4_m):
+                viol(name + ".generate_from_var", "flag-override-model-mismatch", "generate_from_var(w, on_para_eq_constraint=%s) differs from the model" % oflag)
+            if bool(obj4.on_para_eq_constraint) != oflag or not np.array_equal(np.asarray(obj4.to_var(), dtype=float), wo):
+                viol(name + ".generate_from_var", "flag-override-roundtrip-var", "generate_from_var(w, on_para_eq_constraint=%s).to_var() is not w" % oflag)
+    # --- the module-level conversion functions the methods are built from, called directly on the arrays
+    to_fn, from_fn = direct_fns(ty)
+    dv = np.asarray(to_fn(c, arrays_of(obj, ty), flag), dtype=float)
+    if not np.array_equal(dv, var):
+        viol(name + "." + to_fn.__name__, "inconsistent-with-to_var", "direct call differs from to_var()")
+    da = from_fn(c, w.copy(), flag)
+    ds = np.asarray(da, dtype=float).ravel() if ty in (0, 1) else np.concatenate([np.asarray(x, dtype=float).ravel() for x in da])
+    if not close(ds, st3_m):
+        viol(name + "." + from_fn.__name__, "model-mismatch", "direct call differs from the model")
+    elif not close(ds, st3):
+        viol(name + "." + from_fn.__name__, "inconsistent-with-generate_from_var", "direct call differs from generate_from_var(var)")
     # --- static conversions, consistent with the above
     cls = static_cls(ty)
     zs3 = [ty, d, int(flag)]
@@ -388,6 +547,9 @@ def chk_object(ctx, case):
             viol(name + ".generate_from_var", "model-mismatch", "variable vector of length %d accepted with a different result" % L)
 
 
+SHAPES = {4: [(2, 2)], 6: [(2, 3), (3, 2)], 8: [(2, 4), (4, 2), (2, 2, 2)]}
+
+
 def gen_object_cases(ctx, count):
     rng = ctx.rng
     cases = []
@@ -400,13 +562,18 @@ def gen_object_cases(ctx, count):
         else:
             d = 2 if r < 0.3 else 3 if r < 0.6 else 4 if r < 0.85 else 6 if r < 0.97 else (9 if ty in (0, 2) else 6)
         m = rng.randint(2, 5) if ty >= 2 else 0
-        if ty == 3 and d == 6 and ctx.quick:
-            m = min(m, 3)
+        if ty >= 2 and not ctx.quick and rng.random() < 0.1:
+            m = rng.choice([1, 6, 7, 8]) if not (ty == 2 and flag) else rng.choice([6, 7, 8])     # outside the stated 2..5 (thorough only)
+        if ty == 3 and d == 6:
+            m = min(m, 3 if ctx.quick else 4)
         n = d * d
         bad = []
         if rng.random() < 0.5:
             bad = rng.sample([-1, 1, -n, n, n * n, -n * n, 2 * n, n - 1, n * n - n], 3)
-        cases.append({"ty": ty, "d": d, "m": m, "flag": flag, "seed": rng.randrange(10 ** 9), "eqsat": int(rng.random() < 0.4), "bad": bad})
+        case = {"ty": ty, "d": d, "m": m, "flag": flag, "seed": rng.randrange(10 ** 9), "eqsat": int(rng.random() < 0.4), "bad": bad}
+        if ty == 3 and m in SHAPES and rng.random() < 0.5:
+            case["shape"] = list(rng.choice(SHAPES[m]))          # multi-index outcome shape (product = m)
+        cases.append(case)
     return cases
 
 
@@ -447,15 +614,20 @@ def chk_setq(ctx, case):
     fim = sq._get_operation_mode_to_total_index_map()
     ms = [int(v) for v in mdl.call("c03.set_sizes", desc)]
     ctx.count("setq", key=("sizes", case["seed"]), nontrivial=nops >= 2, label=lab)
-    if [total, int(fim["gate"]), int(fim["povm"]), int(fim["mprocess"])] != ms or total != sum(sum(s) for s in sizes):
-        viol("size_var_total", "model-mismatch", "sizes / first indices differ: impl %s model %s" % ([total, fim], ms)); return
+    if total != sum(sum(s) for s in sizes):
+        viol("size_var_total", "neq-sum-of-sizes", "size_var_total %d is not the sum of the operations' variable counts %s" % (total, sizes)); return
+    if [total, int(fim["gate"]), int(fim["povm"]), int(fim["mprocess"])] != ms:
+        viol("size_var_total", "model-mismatch", "sizes / first indices differ: impl %s model %s" % ([total, fim], ms))      # the index predicates below still run
     vt = np.asarray(sq.var_total(), dtype=float)
     if len(vt) != total:
         viol("var_total", "length", "len(var_total) %d != size_var_total %d" % (len(vt), total)); return
     # --- total -> local -> total on every index (sampled when large), and the entry it points at
     ts = list(range(total)) if total <= 400 else sorted(set(rng.randrange(total) for _ in range(300)) | set(b for b in (fim["gate"], fim["povm"], fim["mprocess"], fim["gate"] - 1, fim["povm"] - 1, fim["mprocess"] - 1, 0, total - 1) if 0 <= b < total))
     for t in ts:
-        info = sq.local_info_from_index_var_total(t)
+        try:
+            info = sq.local_info_from_index_var_total(t)
+        except (IndexError, UnboundLocalError) as e:
+            viol("local_info_from_index_var_total", "raises-inside-range", "t=%d with size_var_total %d raises %s" % (t, total, type(e).__name__)); return
         k = NAMES.index(info["mode"]); i = int(info["index_operations"]); j = int(info["index_var_local"])
         mm = [int(v) for v in mdl.call("c03.local_from_total", [t] + blocks)]
         ctx.count("setq", key=(case["seed"], "t", t), nontrivial=nops >= 2, label="total->local")
@@ -482,7 +654,10 @@ def chk_setq(ctx, case):
         if not (0 <= t < total) or t in seen:
             viol("index_var_total_from_local_info", "not-injective-into-range", "(%s,%d,%d) -> %d" % (NAMES[k], i, j, t)); return
         seen.add(t)
-        info = sq.local_info_from_index_var_total(t)
+        try:
+            info = sq.local_info_from_index_var_total(t)
+        except (IndexError, UnboundLocalError) as e:
+            viol("local_info_from_index_var_total", "raises-inside-range", "(%s,%d,%d) -> %d with size_var_total %d raises %s" % (NAMES[k], i, j, t, total, type(e).__name__)); return
         if (NAMES.index(info["mode"]), int(info["index_operations"]), int(info["index_var_local"])) != (k, i, j):
             viol("local_info_from_index_var_total", "not-inverse", "(%s,%d,%d) -> %d -> %s" % (NAMES[k], i, j, t, info)); return
     # --- error branches
@@ -520,10 +695,12 @@ def chk_setq(ctx, case):
     ctx.count("setq", key=(case["seed"], "regen"), nontrivial=nops >= 2, label="set_from_var_total")
     if [len(x) for x in newops] != [len(x) for x in objs]:
         viol("set_qoperations_from_var_total", "regrouping", "number of operations per kind changed")
-    elif not close(st_new, st_m):
+    if not close(st_new, st_m):
         viol("set_qoperations_from_var_total", "model-mismatch", "regenerated operations differ from the model")
-    elif not np.array_equal(np.asarray(new.var_total(), dtype=float), v):
+    if not np.array_equal(np.asarray(new.var_total(), dtype=float), v):
         viol("set_qoperations_from_var_total", "roundtrip-var", "var_total of the regenerated set is not the vector it was generated from")
+    if [[(int(o.dim), bool(o.on_para_eq_constraint), len(o.to_var())) for o in lst] for lst in newops] != [[(int(o.dim), bool(o.on_para_eq_constraint), len(o.to_var())) for o in lst] for lst in objs]:
+        viol("set_qoperations_from_var_total", "configuration-changed", "dimension / flag / number of variables of an operation changed")
     else:
         again = sq.set_qoperations_from_var_total(vt)
         st_again = np.concatenate([np.asarray(o.to_stacked_vector(), dtype=float) for lst in (again.states, again.gates, again.povms, again.mprocesses) for o in lst] + [np.zeros(0)])
@@ -548,12 +725,13 @@ def gen_setq_cases(ctx, count):
     cases = [{"ops": [[], [], [], []], "seed": 1}]
     for k in range(count):
         groups = []
+        big = (not ctx.quick) and rng.random() < 0.2          # thorough: some sets with up to 6 operations of a kind
         for ty in range(4):
             grp = []
-            for _ in range(rng.randint(0, 3)):
+            for _ in range(rng.randint(0, 6 if big else 3)):
                 r = rng.random()
                 d = 2 if r < 0.55 else 3 if r < 0.9 else 4
-                if ty == 3 and d == 4:
+                if ty == 3 and d == 4 and (ctx.quick or big):
                     d = 3
                 m = rng.randint(2, 5 if d == 2 else 3) if ty >= 2 else 0
                 grp.append([d, m, rng.randint(0, 1)])
@@ -643,19 +821,23 @@ def sub_tomography(ctx):
     ctx.run_cases("tomography", chk_tomography, cases)
 
 
-SUBS = [("index_maps", sub_index_maps), ("objects", sub_objects), ("setq", sub_setq), ("tomography", sub_tomography)]
-FNS = {"index_maps": chk_index, "objects": chk_object, "setq": chk_setq, "tomography": chk_tomography}
+SUBS = [("index_maps", sub_index_maps), ("index_wide", sub_index_wide), ("objects", sub_objects), ("setq", sub_setq), ("tomography", sub_tomography)]
+FNS = {"index_maps": chk_index, "index_wide": chk_index_wide, "objects": chk_object, "setq": chk_setq, "tomography": chk_tomography}
 
 
 def run(ctx):
-    ctx.rule = ("index maps: exhaustive over every variable index and every object entry for d in {2,3,4,6} (thorough: also 8, 9), m in 2..5, both flags, "
-                "all four types, on objects whose entries are labelled by their position; objects: seeded random NON-physical objects "
-                "(small dyadic rationals, asymmetric, ~40% built to satisfy the equality constraint) through to_var, generate_from_var, the static "
-                "stacked<->var conversions, calc_gradient (in and out of range) and malformed variable lengths; SetQOperations: random mixes of 0-3 "
+    ctx.rule = ("theorems: Props/C03.v plus the equivalence / transported theorems of coq/gen/C03_Equiv.v re-proved against the eight index functions REGENERATED "
+                "from the current source (translator tie; when it does not re-prove, the index sweeps are widened to find a failing input). "
+                "index_maps: exhaustive over every variable index and every object entry for d in {2,3,4,6} (thorough: also 8, 9 and m in 1, 6..9), m in 2..5, both flags, "
+                "all four types, on objects whose entries are labelled by their position; index_wide: the index functions alone, d up to 12 (16), m in 1..12, boundary + random indices; "
+                "objects: seeded random NON-physical objects (small dyadic rationals, asymmetric, ~40% built to satisfy the equality constraint, MProcess also with multi-index "
+                "outcome shapes) through to_var, generate_from_var (own flag and the override flag), the module-level convert_* functions, the static stacked<->var conversions, "
+                "calc_gradient (in and out of range) and malformed variable lengths; SetQOperations: random mixes of 0-3 (thorough: up to 6) "
                 "operations per kind with mixed dimensions / flags / outcome counts, every total index and every (kind, operation, local index); "
-                "tomography: all four standard classes on typical testers. non-trivial = more than half of the entries non-zero (objects), at least two "
+                "tomography: all four standard classes on typical testers. Every property predicate is evaluated on the implementation's outputs with independent numpy code "
+                "AND the outputs are compared with the extracted Coq model. non-trivial = more than half of the entries non-zero (objects), at least two "
                 "operations (sets); distinct = distinct (type, d, m, flag, seed/index)")
-    flow.standard_run(ctx, SUBS)
+    flow.standard_run(ctx, SUBS, regens=[("var_index", "C03_Equiv")])
 
 
 def replay(ctx, doc):
